@@ -135,9 +135,31 @@ def gen(tier, rng):
     return out
 
 
+def big_pairs(tier, rng, kinds=None):
+    """valid documents through a 200 reply, with and without a padding member of more than 1 MiB / 3 MiB"""
+    pairs = []
+    for ki, kind in enumerate(kinds or KINDS):
+        if kind == "revoke":
+            continue
+        fam = FAM[kind] or "token"
+        m, known = D.family_doc(fam, rng, False)
+        small = http_line("sync" if ki % 2 else "async", kind, False, 200, b"application/json", D.render(D.obj(m), rng, plain=True))
+        for size, pad in ((1048577, "s"), (3 * 1048576, "a")):
+            if tier == "quick" and (ki + size) % 2:
+                continue
+            padding = ("padding", "x" * size) if pad == "s" else ("padding", ["y"] * (size // 4))
+            big = http_line("sync" if ki % 2 else "async", kind, False, 200, b"application/json", D.render(D.obj(m + [padding]), rng, plain=True))
+            pairs.append((small, big))
+    return pairs
+
+
 def run(tier, rng, C):
     cases = gen(tier, rng)
     v, stats = C.differential("C05", cases, nontrivial=lambda l, o: o.startswith("ok ") or o.startswith("server "))
+    bad, nbig = C.invariance("C05", c05.big_pairs(tier, rng, None) if "c05" in globals() else big_pairs(tier, rng, None), "a valid document with an unknown member of more than 1 MiB is accepted like the same document without it")
+    v += bad
+    stats["large_document_pairs"] = nbig
+    stats["evaluations"] = stats.get("evaluations", 0) + nbig
     stats["rule"] = ("all statuses 100..=599 x rotating (7 request kinds, standard/extension response type, 15 Content-Type classes incl. absent, case variants, parameters, look-alikes, opaque bytes, "
                      "15 body classes (incl. huge/fractional/negative values of the known numeric members): empty, success doc, error doc, both shapes, wrong shape, truncated, text, invalid UTF-8, 200-deep nesting, 400-digit number, 1e999, document followed by junk, "
                      "error document followed by token document, whitespace padded) + the full product for statuses 200/400 (and a third of it for 201/204/302/401/500) + transport errors, "
